@@ -6,6 +6,7 @@ import (
 	"fmt"
 	"sort"
 	"strings"
+	"time"
 
 	cedar "github.com/cedar-policy/cedar-go"
 	publicast "github.com/cedar-policy/cedar-go/ast"
@@ -556,8 +557,9 @@ func policySets() *core.Family {
 
 func Check() *core.Check {
 	return &core.Check{
-		ID:    "C09",
-		Title: "The JSON policy codec round-trips and agrees with the text codec",
+		ID:        "C09",
+		HangAfter: 120 * time.Second, // cases take at most seconds (max_case_s in the evidence); see core.Family.HangAfter
+		Title:     "The JSON policy codec round-trips and agrees with the text codec",
 		Rule: "bounded-exhaustive: every operator form (all JSON node shapes, extension calls and extension-typed literals, is..in, records with escape-needing keys) over every value of the boundary universe, all depth-2 pairings, every like pattern of <=4 components, all scope/annotation/condition heads, policy sets with ids needing JSON escapes; decode(encode(p)) equals p under the stated normal form (annotations and record entries by key, Value(decimal|ip) == emitted constructor call, nil == empty); text->JSON->text and JSON->text->JSON commute; all encodings authorize identically in 6 environments; " +
 			"every executed case is non-trivial (distinct policy)",
 		Assumptions: []string{"unknown extension names are rejected by the JSON decoder by design and are outside the domain", "text conversions are checked for text-expressible policies only"},
